@@ -247,6 +247,9 @@ Fixpoint enc_events (s : state) (es : list event) : list Z :=
   | e :: r => let x := estep s e in enc_result x ++ enc_events (st x) r
   end.
 
+(* several observations together: plain text anywhere is class 1, else cipher text is class 2 *)
+Definition comb (a b : Z) : Z := if (a =? 1) || (b =? 1) then 1 else Z.max a b.
+
 (* program run (kind "run" of the harness): per statement [executed; err; flag after] and the largest leak *)
 Fixpoint enc_prog (s : state) (os : list op) : list Z * Z :=
   match os with
@@ -256,7 +259,7 @@ Fixpoint enc_prog (s : state) (os : list op) : list Z * Z :=
         let x := step s o in
         let '(l, k) := enc_prog (st x) r in
         (1 :: match rs_ x with Err e => e | _ => 0 end :: enc_bool (protected (st x)) :: l,
-         Z.max (leak_class (ob x)) k)
+         comb (leak_class (ob x)) k)
       else let '(l, k) := enc_prog s r in (0 :: 0 :: 0 :: l, k)
   end.
 Definition enc_run (s : state) (os : list op) : list Z :=
@@ -270,7 +273,7 @@ Fixpoint enc_inter_from (s : state) (es : list event) (n k : Z) : list Z :=
       let x := estep s e in
       enc_inter_from (st x) r
         (match rs_ x with Err e => if e =? E_IFC then n + 1 else n | _ => n end)
-        (Z.max k (leak_class (ob x)))
+        (comb k (leak_class (ob x)))
   end.
 Definition enc_inter (s : state) (es : list event) : list Z := enc_inter_from s es 0 0.
 
